@@ -67,6 +67,13 @@ pub struct History {
     /// not local stay in flight for seconds
     #[serde(default)]
     pub slow_upstream: bool,
+    /// the server runs in forwarding mode towards a forwarder that answers
+    /// every question at once with an empty NOERROR reply; before each reload
+    /// the hosts names are asked with QTYPE ANY and RD set, so that local and
+    /// upstream data are merged into one answer (nothing local may reach the
+    /// cache that way: the cache survives the reload)
+    #[serde(default)]
+    pub answering_upstream: bool,
 }
 
 struct Layout {
@@ -218,6 +225,15 @@ fn count_done(log: &str) -> (usize, Option<bool>) {
     (n, last)
 }
 
+/// Stops a helper thread when the check returns, on whatever path.
+struct StopOnDrop(Arc<AtomicBool>);
+
+impl Drop for StopOnDrop {
+    fn drop(&mut self) {
+        self.0.store(true, Ordering::Relaxed);
+    }
+}
+
 pub struct Reloads;
 
 impl Prop for Reloads {
@@ -253,7 +269,10 @@ impl Prop for Reloads {
                 inflight: g.chance(1, 2),
             })
             .collect();
-        History { steps, dirs_only: g.chance(1, 4), slow_upstream: g.chance(1, 4) }
+        {
+            let up = g.below(8);
+            History { steps, dirs_only: g.chance(1, 4), slow_upstream: up < 2, answering_upstream: up == 2 || up == 3 }
+        }
     }
 
     fn check(&self, h: &History) -> Outcome {
@@ -290,14 +309,38 @@ impl Prop for Reloads {
         // (TCP to its port is refused at once), kept for the server's lifetime
         let black_hole = std::net::UdpSocket::bind("127.0.0.1:0").ok();
         let mut args = args;
-        if h.slow_upstream {
+        let stop_upstream = Arc::new(AtomicBool::new(false));
+        let _stop_guard = StopOnDrop(stop_upstream.clone());
+        if h.answering_upstream && !h.slow_upstream {
+            if let Some(sock) = black_hole.as_ref().and_then(|s| s.try_clone().ok()) {
+                let stop_u = stop_upstream.clone();
+                let _ = sock.set_read_timeout(Some(Duration::from_millis(100)));
+                std::thread::spawn(move || {
+                    let mut buf = vec![0u8; 4096];
+                    while !stop_u.load(Ordering::Relaxed) {
+                        let Ok((n, peer)) = sock.recv_from(&mut buf) else { continue };
+                        let Ok(mut m) = rwire::decode(&buf[..n]) else { continue };
+                        m.qr = true;
+                        m.ra = true;
+                        m.answers.clear();
+                        m.authority.clear();
+                        m.additional.clear();
+                        let _ = sock.send_to(&rwire::encode_plain(&m), peer);
+                    }
+                });
+            }
+            out.classes.push("forwarding-to-answering-forwarder".into());
+        }
+        if h.slow_upstream || h.answering_upstream {
             let Some(port) = black_hole.as_ref().and_then(|s| s.local_addr().ok()).map(|a| a.port()) else {
                 return out.fail("harness-io", "cannot bind the black-hole forwarder");
             };
             args.retain(|a| a != "--authoritative-only");
             args.push("--forward-address".into());
             args.push(format!("127.0.0.1:{port}"));
-            out.classes.push("forwarding-to-silent-forwarder".into());
+            if h.slow_upstream {
+                out.classes.push("forwarding-to-silent-forwarder".into());
+            }
         }
         let mut server = match Server::start(l.dir.clone(), &args, &query("m1.v.test.", T_TXT, 0x5e5e)) {
             Ok(s) => s,
@@ -309,6 +352,7 @@ impl Prop for Reloads {
         let (mut n_fail, mut n_ok, mut during_total) = (0u32, 0u32, 0u64);
         let mut slow_probes = 0u64;
         let mut inflight_steps = 0u64;
+        let mut merged_questions = 0u64;
 
         for (i, s) in h.steps.iter().enumerate() {
             let ver = i + 1;
@@ -323,6 +367,14 @@ impl Prop for Reloads {
                 s
             };
             let valid = s.fault.is_none();
+            if h.answering_upstream && !h.slow_upstream {
+                for (k, name) in ["host.lan.", "more.lan.", "second.lan."].iter().enumerate() {
+                    let mut m = rwire::decode(&query(name, Q_ANY, 0x6100 + k as u16)).expect("own query");
+                    m.rd = true;
+                    let _ = udp_exchange(addr, &rwire::encode_plain(&m), Duration::from_secs(3));
+                    merged_questions += 1;
+                }
+            }
             if let Err(e) = write_config(&l, ver, s) {
                 return out.fail("harness-io", e.to_string());
             }
@@ -536,6 +588,8 @@ impl Prop for Reloads {
         out.counts.push(("replies-during-reload-window", during_total));
         out.counts.push(("probes-answered-while-load-blocked", slow_probes));
         out.counts.push(("reloads-with-an-upstream-question-in-flight", inflight_steps));
+        out.counts.push(("any-questions-merging-local-and-upstream-data", merged_questions));
+        stop_upstream.store(true, Ordering::Relaxed);
         if slow_probes > 0 {
             out.classes.push("slow-reload".into());
         }
@@ -552,7 +606,7 @@ pub fn def() -> PropertyDef {
     PropertyDef {
         id: "C19",
         level: "fault_enumeration",
-        rule: "One `resolved --authoritative-only` process per history (shipped binary, guard off, RUST_LOG=info) configured with an explicit zone file (-z), a zone directory (-Z; one history in four uses directories only, the main zone and hosts files living inside them; one history in four runs the server in forwarding mode towards a forwarder that never answers and puts, in half of its steps, a question about a non-local name just before the signal, so that the reload coincides with a resolution waiting for its upstream; every probe must be answered within 2 s: one zone with 0..6000 padding records so that loading takes milliseconds, plus up to three optional zone files), a hosts file (-a) and a hosts directory (-A). A history has 3..10 steps; step v rewrites every file so that each record carries the version v in its data (TXT text, address octet, SOA serial, CNAME TTL), adds or removes the optional files, and with probability 2/5 plants one fault (syntax error in the explicit or in a directory zone file, a non-UTF-8 file, the explicit file replaced by a directory or removed, a malformed hosts line, a second SOA, a dangling symbolic link in the zone or the hosts directory, both directories renamed away), then sends SIGUSR1 and waits for the 'done - success|failure' log line while a thread fires probes in a tight loop (several A records, TXT, ANY, an alias crossing two files, a hosts entry); one step in four is a slow reload: a writer-less FIFO in the hosts directory blocks the load, six probes sent meanwhile must each be answered within 3 s from the configuration in force, then the FIFO is fed. Oracle: the log says success iff the step planted no fault; every reply around the reload has markers that all agree and name the previous or the new good version; after the reload every probe shows exactly the good version (the new one after success, the previous good one after failure), optional records are present iff their file belongs to that configuration; every probe is answered and the process stays alive. Non-trivial = the history has a succeeding and a failing reload and at least one reply fell between signal and log line. Distinct by hash of the history.",
+        rule: "One `resolved --authoritative-only` process per history (shipped binary, guard off, RUST_LOG=info) configured with an explicit zone file (-z), a zone directory (-Z; one history in four uses directories only, the main zone and hosts files living inside them; one history in four runs the server in forwarding mode towards a forwarder that never answers and puts, in half of its steps, a question about a non-local name just before the signal, so that the reload coincides with a resolution waiting for its upstream; every probe must be answered within 2 s; another history in four forwards to a forwarder that answers at once with empty replies, and asks the hosts names with QTYPE ANY and RD set before every reload (local and upstream data merged into one answer; the cache outlives the reload, so nothing local may get into it): one zone with 0..6000 padding records so that loading takes milliseconds, plus up to three optional zone files), a hosts file (-a) and a hosts directory (-A). A history has 3..10 steps; step v rewrites every file so that each record carries the version v in its data (TXT text, address octet, SOA serial, CNAME TTL), adds or removes the optional files, and with probability 2/5 plants one fault (syntax error in the explicit or in a directory zone file, a non-UTF-8 file, the explicit file replaced by a directory or removed, a malformed hosts line, a second SOA, a dangling symbolic link in the zone or the hosts directory, both directories renamed away), then sends SIGUSR1 and waits for the 'done - success|failure' log line while a thread fires probes in a tight loop (several A records, TXT, ANY, an alias crossing two files, a hosts entry); one step in four is a slow reload: a writer-less FIFO in the hosts directory blocks the load, six probes sent meanwhile must each be answered within 3 s from the configuration in force, then the FIFO is fed. Oracle: the log says success iff the step planted no fault; every reply around the reload has markers that all agree and name the previous or the new good version; after the reload every probe shows exactly the good version (the new one after success, the previous good one after failure), optional records are present iff their file belongs to that configuration; every probe is answered and the process stays alive. Non-trivial = the history has a succeeding and a failing reload and at least one reply fell between signal and log line. Distinct by hash of the history.",
         assumptions: vec!["timing of probes relative to the swap is the operating system's (not controlled); the count of replies inside the reload window is reported"],
         parts: vec![Box::new(Reloads)],
         budget_s: |t| t.pick(1200, 10_800),
